@@ -42,6 +42,11 @@ func (p Params) Validate() error {
 		return fmt.Errorf("fee must be positive and less than 1: %s", p.Fee.String())
 	}
 
+	// Coin.Validate also rejects an unset coin and a malformed denom, on which
+	// opening a pool would otherwise abort when the fee coins are built
+	if err := p.PoolCreationFee.Validate(); err != nil {
+		return fmt.Errorf("invalid poolCreationFee: %w", err)
+	}
 	if !p.PoolCreationFee.IsPositive() {
 		return fmt.Errorf("poolCreationFee must be positive: %s", p.PoolCreationFee.String())
 	}
